@@ -29,6 +29,7 @@ NAME_POOL = [
     "é.gmi", "日本.gmi", "trailing.", "dots..", ".hidden", "back\\slash.gmi", "new\nline.gmi", "tab\t.gmi",
     "colon:at@.gmi", "UPPER.GMI", "l" * 200 + ".gmi", "\udcff\udcfe.gmi", "star*.gmi", "~tilde", "%2e%2e", "%2F",
     "cafe\u0301.gmi", "caf\u00e9.gmi", "\u212bngstrom.gmi", "\u00c5ngstrom.gmi", "d" * 120, "a.gmi.tmp", "b.txt.tmp", ".a.gmi.tmp",
+    "..data", "...", "..hidden.txt", "...notes.txt", "x..y",
 ]
 
 
